@@ -75,6 +75,11 @@ var preludeFns = map[string]preludeFn{
 	"bstr_content":      {[]Sort{SBytes}, SBytes},
 	"item_wf":           {[]Sort{SBytes}, SBool},
 	"abs":               {[]Sort{SInt}, SInt},
+	"any_canint":        {[]Sort{SAny}, SBool},
+	"any_canuint":       {[]Sort{SAny}, SBool},
+	"any_isbytes":       {[]Sort{SAny}, SBool},
+	"any_intval":        {[]Sort{SAny}, SInt},
+	"any_uintval":       {[]Sort{SAny}, SInt},
 	"dec_shape_err":     {[]Sort{SAny, SBytes, SStr}, SAny},
 	"dec_bytes_err":     {[]Sort{SAny, SBytes}, SAny},
 	"dec_elem":          {[]Sort{SBytes, SInt}, SBytes},
@@ -247,6 +252,10 @@ func (env *SEnv) call(e *SExpr) *SVal {
 		rt := u.eng.resolveType(&STypeExpr{Kind: "qual", Pkg: "cbor", Name: tn})
 		u.eng.declareFun(fnm, []Sort{SAny}, rt.Sort)
 		return &SVal{T: App(rt.Sort, fnm, x.T), Go: rt.Go}
+	case "anybytes":
+		// the []byte view of an interface value whose dynamic type is a byte slice (reflect.Value.Bytes)
+		x := env.coerce(env.eval(e.Args[0]), SAny)
+		return &SVal{T: App(SSlice, "any_bytesval", x.T), Go: types.NewSlice(types.Typ[types.Uint8])}
 	case "asmap":
 		// conversion of a named map type (ProtectedHeader, UnprotectedHeader, CWTClaims) to map[any]any
 		x := env.eval(e.Args[0])
